@@ -343,7 +343,7 @@ def C19(ck):
     # Apalache: Binding / NoForgery / TwoSignsTwoTokens as an inductive invariant for 3 keys x 7 algorithms x 4 claims-sets
     ck.add_model(vlib.apalache_inductive("PsaEvidence", "EInit", "IndInv", "ENext", "ApaConstants"))
     # TLAPS: SigKnown /\ Binding inductive, and => NoForgery, for arbitrary sets of keys / algorithms / claims-sets
-    ck.add_model(vlib.tlaps("PsaEvidenceProofs", expect_min=30))
+    ck.add_model(vlib.tlaps("PsaEvidenceProofs", expect_min=70))
     if ck.tier != "quick":
         # the composition (claims + wire + dispatch + Evidence with real tokens): end-to-end Binding / NoForgery
         ck.add_model(vlib.mc("Psa", "MC_Psa.cfg", timeout=3500, workers=12))
@@ -361,7 +361,7 @@ def C02(ck):
                "reachable states; non-trivial = every tampered token")
     ck.assumptions = TRUST + ["perfect cryptography in the model; go-cose's arithmetic is exercised, not modelled"]
     ck.add_model(vlib.mc("MC_Evidence", "MC_Evidence_replay.cfg"))
-    ck.add_model(vlib.tlaps("PsaEvidenceProofs", expect_min=30))     # NoForgery for arbitrary keys / algorithms / claims-sets
+    ck.add_model(vlib.tlaps("PsaEvidenceProofs", expect_min=70))     # NoForgery for arbitrary keys / algorithms / claims-sets
     ck.add_model(vlib.mc("MC_Evidence", "MC_Evidence_small.cfg" if ck.tier == "quick" else "MC_Evidence_full.cfg", timeout=3000))
     dom = vlib.gen_export("Gen_Claims", "Gen_Claims.cfg", "domains")
     try:
